@@ -40,6 +40,9 @@ class Pointer(int, BaseType, Generic[T]):
     def __add__(self, other: int) -> Self:
         return type.__call__(self.__class__, int.__add__(self, other), self._stream, self._context)
 
+    def __radd__(self, other: int) -> Self:
+        return type.__call__(self.__class__, int.__radd__(self, other), self._stream, self._context)
+
     def __sub__(self, other: int) -> Self:
         return type.__call__(self.__class__, int.__sub__(self, other), self._stream, self._context)
 
